@@ -312,6 +312,37 @@ func c16Worker(args []string) int {
 				}
 			}
 		}
+		// ... and with Restorer.Extras on a file whose scope still knows declarations that were removed from
+		// the tree (objects are kept in maps): the same bytes every time, and the same as without Extras
+		{
+			esrc := "package p\n\n// Alpha doc\nfunc Alpha() {} // alpha trail\n\n// Beta doc\nfunc Beta() {} // beta trail\n\n// Gamma doc\nfunc Gamma() {} // gamma trail\n\nfunc Keep() { Alpha(); Beta(); Gamma() }\n"
+			first := ""
+			for k := 0; k < 40; k++ {
+				f, err := decorator.Parse(esrc)
+				if err != nil {
+					break
+				}
+				f.Decls = f.Decls[3:]
+				var plain, ex bytes.Buffer
+				if err := decorator.Fprint(&plain, dst.Clone(f).(*dst.File)); err != nil {
+					fmt.Println("DIFF repeat-extras: error", err)
+					break
+				}
+				r := decorator.NewRestorer()
+				r.Extras = true
+				if err := r.Fprint(&ex, f); err != nil {
+					fmt.Println("DIFF repeat-extras: error", err)
+					break
+				}
+				if first == "" {
+					first = ex.String()
+				}
+				if ex.String() != first || ex.String() != plain.String() {
+					fmt.Printf("DIFF repeat-extras %d: with Extras %q, first run %q, without Extras %q\n", k, ex.String(), first, plain.String())
+					break
+				}
+			}
+		}
 		fmt.Println("STRESS-DONE")
 		return 0
 	case "trace":
